@@ -106,10 +106,10 @@ check(
           "that delivers arbitrary short segments. Distinct = hash of the stream (and read "
           "sizes); enumerated cases are distinct by construction. Non-trivial = a multi-frame stream with a read that "
           "straddles a frame boundary, or any alteration / truncation / oversize case, or a non-empty payload."),
-    quick=[unit("codec", "^TestC05(EveryLength|Streams|EndOfStream|Oversize)", checks=2000, timeout=900),
+    quick=[unit("codec", "^TestC05(EveryLength|Streams|EndOfStream|Oversize|BlockOver)", checks=2000, timeout=900),
            unit("codec", "^TestC05Alterations", checks=120, timeout=900),
            unit("client", "^TestC05ClientCorruptedFrame", checks=1500, timeout=900)],
-    thorough=[unit("codec", "^TestC05(EveryLength|Streams|EndOfStream|Oversize)", checks=20000, timeout=6000, shards=6),
+    thorough=[unit("codec", "^TestC05(EveryLength|Streams|EndOfStream|Oversize|BlockOver)", checks=20000, timeout=6000, shards=6),
               unit("codec", "^TestC05Alterations", checks=2500, timeout=6000, shards=8),
               unit("client", "^TestC05ClientCorruptedFrame", checks=30000, timeout=6000, shards=2)],
     manifest=dict(
